@@ -17,7 +17,6 @@ From V Require Model.Date Model.Time.
 From V Require Proofs.C06 Judge.C17.
 Import ListNotations.
 Open Scope Z_scope.
-Set Default Timeout 60.
 Ltac Zify.zify_post_hook ::= Z.to_euclidean_division_equations.
 
 Notation m_trunc := V.Judge.C17.m_trunc.
@@ -813,3 +812,149 @@ Proof.
   all: try (f_equal; f_equal; lia).
   all: change (0 <? 86400) with true in *; cbv iota in *; in_solve.
 Qed.
+
+Lemma rem_u32_nonneg a b : 0 <= a <= u32_max -> 0 < b -> rem_u32 a b = Val (a mod b).
+Proof.
+  intros Ha Hb. unfold rem_u32. rewrite rem_t_nz by lia. rewrite Z.rem_mod_nonneg by lia.
+  rewrite Z.quot_div_nonneg by lia.
+  replace (in_u32 (a / b)) with true; [reflexivity|]. symmetry. unfold in_u32, in_range.
+  assert (0 <= a / b <= a); [|lia]. split; [apply Z.div_pos; lia|]. apply Z.div_le_upper_bound; [lia|]. nia.
+Qed.
+
+Ltac time_tail tf :=
+  unfold GG; destruct (1000000000 <=? tf) eqn:?EL; cbn [Time.tsecs Time.tfrac andb negb];
+  repeat (dif; cbn [andb negb]; try lia);
+  f_equal; f_equal; lia.
+Ltac time_case Hc tf :=
+  rewrite Hc;
+  destruct (tf mod _ >? 0) eqn:?E;
+  [ unfold sub_u32; rewrite chk_in by in_solve; cbn [bind];
+    match goal with |- context [if ?c then bind _ _ else bind _ _] => destruct c eqn:?E2 end;
+    [ rewrite nanoseconds_lt_G by (unfold GG; lia); cbn [bind];
+      rewrite time_add_small by (unfold time_ok, GG; cbn [Time.tsecs Time.tfrac]; lia); time_tail tf
+    | rewrite nanoseconds_lt_G by (unfold GG; lia); cbn [bind];
+      rewrite time_sub_small by (unfold time_ok, GG; cbn [Time.tsecs Time.tfrac]; lia); time_tail tf ]
+  | time_tail tf ].
+
+Theorem time_round_subsecs_spec t digits : time_ok t -> 0 <= digits ->
+  round_subsecs time_ops t digits = Val (time_expected true digits t).
+Proof.
+  intros [Hs Hf] Hd. unfold round_subsecs, time_expected, V.Judge.C17.sub_frac.
+  cbn [tl_nanosecond tl_add tl_sub time_ops bind]. rewrite (span_for_digits_spec digits Hd).
+  unfold Time.nanosecond. destruct t as [ts tf]. cbn [Time.tsecs Time.tfrac] in *.
+  pose proof (sub_span_cases digits Hd) as Hc. cbv zeta in Hc.
+  rewrite rem_u32_nonneg by (unfold u32_max; destruct (sub_span_divides digits Hd); lia). cbn [bind].
+  unfold V.Judge.C17.G.
+  repeat (destruct Hc as [Hc|Hc]; [time_case Hc tf|]). time_case Hc tf.
+Qed.
+
+Ltac time_case_trunc Hc tf :=
+  rewrite Hc;
+  destruct (tf mod _ >? 0) eqn:?E;
+  [ rewrite nanoseconds_lt_G by (unfold GG; lia); cbn [bind];
+    rewrite time_sub_small by (unfold time_ok, GG; cbn [Time.tsecs Time.tfrac]; lia); time_tail tf
+  | time_tail tf ].
+
+Theorem time_trunc_subsecs_spec t digits : time_ok t -> 0 <= digits ->
+  trunc_subsecs time_ops t digits = Val (time_expected false digits t).
+Proof.
+  intros [Hs Hf] Hd. unfold trunc_subsecs, time_expected, V.Judge.C17.sub_frac.
+  cbn [tl_nanosecond tl_add tl_sub time_ops bind]. rewrite (span_for_digits_spec digits Hd).
+  unfold Time.nanosecond. destruct t as [ts tf]. cbn [Time.tsecs Time.tfrac] in *.
+  pose proof (sub_span_cases digits Hd) as Hc. cbv zeta in Hc.
+  rewrite rem_u32_nonneg by (unfold u32_max; destruct (sub_span_divides digits Hd); lia). cbn [bind].
+  unfold V.Judge.C17.G.
+  repeat (destruct Hc as [Hc|Hc]; [time_case_trunc Hc tf|]). time_case_trunc Hc tf.
+Qed.
+
+(* results are well-formed times again, and 9 or more digits leave the value unchanged *)
+Lemma time_expected_ok round digits t : time_ok t -> 0 <= digits -> time_ok (time_expected round digits t).
+Proof.
+  intros [Hs Hf] Hd. unfold time_expected, V.Judge.C17.sub_frac, V.Judge.C17.G, GG.
+  destruct t as [ts tf]. cbn [Time.tsecs Time.tfrac] in *.
+  pose proof (sub_span_cases digits Hd) as Hc. cbv zeta in Hc.
+  assert (H86 : 0 <= (ts + 1) mod 86400 < 86400) by (apply Z.mod_pos_bound; lia).
+  destruct (1000000000 <=? tf) eqn:EL;
+  repeat (destruct Hc as [Hc|Hc]; [rewrite Hc; repeat (dif; cbn [andb negb]); unfold time_ok; cbn [Time.tsecs Time.tfrac]; lia|]);
+  rewrite Hc; repeat (dif; cbn [andb negb]); unfold time_ok; cbn [Time.tsecs Time.tfrac]; lia.
+Qed.
+Lemma time_digits_ge9 round digits t : time_ok t -> 9 <= digits -> time_expected round digits t = t.
+Proof.
+  intros [Hs Hf] Hd. unfold time_expected, V.Judge.C17.sub_frac, V.Judge.C17.sub_span, V.Judge.C17.G, GG.
+  rewrite Z.min_l by lia. change (10 ^ (9 - 9)) with 1. destruct t as [ts tf]. cbn [Time.tsecs Time.tfrac] in *.
+  destruct (1000000000 <=? tf) eqn:EL; rewrite !Z.mod_1_r; rewrite andb_false_r || (cbn [Z.eqb negb andb]; rewrite ?andb_false_r);
+  cbn [andb negb]; f_equal; lia.
+Qed.
+
+(** ** NaiveDateTime and DateTime<FixedOffset>, modulo add-exactness over a range [LO..HI] *)
+Definition ndt_sub_links (stamp : ndt -> Z) (good : ndt -> Prop) (LO HI : Z) : Prop :=
+  (forall a, good a -> Time.tfrac (nd_time a) = stamp a mod GG) /\
+  (forall a d, good a -> valid d -> LO <= stamp a + ns d <= HI ->
+     exists r, ndt_checked_add_signed a d = Val (Some r) /\ good r /\ stamp r = stamp a + ns d) /\
+  (forall a d, good a -> valid d -> LO <= stamp a - ns d <= HI ->
+     exists r, ndt_checked_sub_signed a d = Val (Some r) /\ good r /\ stamp r = stamp a - ns d).
+Definition dz_sub_links (wall : dtz -> Z) (goodz : dtz -> Prop) (LO HI : Z) : Prop :=
+  (forall z, goodz z -> dz_nanosecond z = Val (wall z mod GG)) /\
+  (forall z d, goodz z -> valid d -> LO <= wall z + ns d <= HI ->
+     exists r, dz_checked_add_signed z d = Val (Some r) /\ goodz r /\ wall r = wall z + ns d) /\
+  (forall z d, goodz z -> valid d -> LO <= wall z - ns d <= HI ->
+     exists r, dz_checked_sub_signed z d = Val (Some r) /\ goodz r /\ wall r = wall z - ns d).
+
+Definition subsec_post {T} (stampT : T -> Z) (goodT : T -> Prop) (f : Z -> Z -> Z) (x : T) (digits : Z) (r : T) : Prop :=
+  goodT r /\ stampT r = f (stampT x) (sub_span digits) /\ (stampT x mod sub_span digits = 0 -> r = x).
+
+Lemma ndt_subsec_ops stamp good LO HI : ndt_sub_links stamp good LO HI ->
+  (forall x, good x -> tl_nanosecond ndt_ops x = Val (stamp x mod GG)) /\
+  (forall x d, good x -> valid d -> LO <= stamp x + ns d <= HI ->
+     exists r, tl_add ndt_ops x d = Val r /\ good r /\ stamp r = stamp x + ns d) /\
+  (forall x d, good x -> valid d -> LO <= stamp x - ns d <= HI ->
+     exists r, tl_sub ndt_ops x d = Val r /\ good r /\ stamp r = stamp x - ns d).
+Proof.
+  intros (H1 & H2 & H3). repeat split.
+  - intros x Hx. cbn [tl_nanosecond ndt_ops]. unfold Time.nanosecond. rewrite (H1 x Hx). reflexivity.
+  - intros x d Hx Hd Hw. destruct (H2 x d Hx Hd Hw) as (r & Hr & Hg). exists r. split; [|exact Hg].
+    cbn [tl_add ndt_ops]. unfold ndt_op_add, unwrap_r. rewrite Hr. reflexivity.
+  - intros x d Hx Hd Hw. destruct (H3 x d Hx Hd Hw) as (r & Hr & Hg). exists r. split; [|exact Hg].
+    cbn [tl_sub ndt_ops]. unfold ndt_op_sub, unwrap_r. rewrite Hr. reflexivity.
+Qed.
+Lemma dz_subsec_ops wall goodz LO HI : dz_sub_links wall goodz LO HI ->
+  (forall x, goodz x -> tl_nanosecond dz_ops x = Val (wall x mod GG)) /\
+  (forall x d, goodz x -> valid d -> LO <= wall x + ns d <= HI ->
+     exists r, tl_add dz_ops x d = Val r /\ goodz r /\ wall r = wall x + ns d) /\
+  (forall x d, goodz x -> valid d -> LO <= wall x - ns d <= HI ->
+     exists r, tl_sub dz_ops x d = Val r /\ goodz r /\ wall r = wall x - ns d).
+Proof.
+  intros (H1 & H2 & H3). repeat split.
+  - exact H1.
+  - intros x d Hx Hd Hw. destruct (H2 x d Hx Hd Hw) as (r & Hr & Hg). exists r. split; [|exact Hg].
+    cbn [tl_add dz_ops]. unfold dz_op_add, unwrap_r. rewrite Hr. reflexivity.
+  - intros x d Hx Hd Hw. destruct (H3 x d Hx Hd Hw) as (r & Hr & Hg). exists r. split; [|exact Hg].
+    cbn [tl_sub dz_ops]. unfold dz_op_sub, unwrap_r. rewrite Hr. reflexivity.
+Qed.
+
+Theorem ndt_round_subsecs stamp good LO HI : ndt_sub_links stamp good LO HI ->
+  forall a digits, good a -> 0 <= digits -> LO <= m_round (stamp a) (sub_span digits) <= HI ->
+  exists r, round_subsecs ndt_ops a digits = Val r /\ subsec_post stamp good m_round a digits r.
+Proof. intros H a digits Ha Hd Hw. destruct (ndt_subsec_ops _ _ _ _ H) as (H1 & H2 & H3).
+  exact (round_subsecs_spec ndt ndt_ops stamp good LO HI H1 H2 H3 a digits Ha Hd Hw). Qed.
+Theorem ndt_trunc_subsecs stamp good LO HI : ndt_sub_links stamp good LO HI ->
+  forall a digits, good a -> 0 <= digits -> LO <= m_trunc (stamp a) (sub_span digits) <= HI ->
+  exists r, trunc_subsecs ndt_ops a digits = Val r /\ subsec_post stamp good m_trunc a digits r.
+Proof. intros H a digits Ha Hd Hw. destruct (ndt_subsec_ops _ _ _ _ H) as (H1 & H2 & H3).
+  exact (trunc_subsecs_spec ndt ndt_ops stamp good LO HI H1 H2 H3 a digits Ha Hd Hw). Qed.
+Theorem dz_round_subsecs wall goodz LO HI : dz_sub_links wall goodz LO HI ->
+  forall z digits, goodz z -> 0 <= digits -> LO <= m_round (wall z) (sub_span digits) <= HI ->
+  exists r, round_subsecs dz_ops z digits = Val r /\ subsec_post wall goodz m_round z digits r.
+Proof. intros H a digits Ha Hd Hw. destruct (dz_subsec_ops _ _ _ _ H) as (H1 & H2 & H3).
+  exact (round_subsecs_spec dtz dz_ops wall goodz LO HI H1 H2 H3 a digits Ha Hd Hw). Qed.
+Theorem dz_trunc_subsecs wall goodz LO HI : dz_sub_links wall goodz LO HI ->
+  forall z digits, goodz z -> 0 <= digits -> LO <= m_trunc (wall z) (sub_span digits) <= HI ->
+  exists r, trunc_subsecs dz_ops z digits = Val r /\ subsec_post wall goodz m_trunc z digits r.
+Proof. intros H a digits Ha Hd Hw. destruct (dz_subsec_ops _ _ _ _ H) as (H1 & H2 & H3).
+  exact (trunc_subsecs_spec dtz dz_ops wall goodz LO HI H1 H2 H3 a digits Ha Hd Hw). Qed.
+
+(* the sub-second span: 10^(9-N) for N < 9, 1 from 9 digits on; a divisor of one second *)
+Lemma sub_span_ge9 digits : 9 <= digits -> sub_span digits = 1.
+Proof. intros H. unfold V.Judge.C17.sub_span. rewrite Z.min_l by lia. reflexivity. Qed.
+Lemma m_fix_span1 s : m_trunc s 1 = s /\ m_round s 1 = s /\ m_up s 1 = s.
+Proof. destruct (m_round_fix s 1 ltac:(lia) (Z.rem_1_r s)) as (H1 & H2 & H3). auto. Qed.
